@@ -105,6 +105,7 @@ func runC17(c *Ctx, r *Report) {
 	c17ErrorsExamined(c, r)
 	c17ReadErrorsKept(c, r)
 	c17ReaderConsumers(c, r)
+	c17ReadDataKept(c, r)
 }
 
 // ---- R17.1 -----------------------------------------------------------------
